@@ -80,6 +80,13 @@ def scenarios(tier, rng):
                     num2 = (top2 << (64 * (dl - 2 + m1))) - 1 - rng.getrandbits(32)
                     if num2 >= 0 and num2 < (dn << (64 * m1)):
                         sc.append({"g": "kern", "op": "kdiv_nxm_norm", "n": slice_bytes(num2, dl + m1), "d": slice_bytes(dn, dl)})
+    # forced quotient digit with normalised and un-normalised divisors (see C03.forced_digit_cases)
+    for bits in (192, 256, 320, 512, 768):
+        for n, d in C03.forced_digit_cases(bits, rng, 4 if quick else 30):
+            nl, dl = limbs_of(n), limbs_of(d)
+            sc.append({"g": "kern", "op": "kdiv", "n": slice_bytes(n, nl + rng.choice([0, 1])), "d": slice_bytes(d, dl + rng.choice([0, 1]))})
+            if nl >= dl >= 3:
+                sc.append({"g": "kern", "op": "kdiv_nxm", "n": slice_bytes(n, nl), "d": slice_bytes(d, dl)})
     # zero numerators / zero divisors / alphabet products for short slices
     import itertools
     alpha = [0, 1, 2**64 - 1] if quick else [0, 1, 2**63, 2**64 - 1]
@@ -97,7 +104,7 @@ def scenarios(tier, rng):
     for row in range(256, 512):
         lo = row << 55
         hi = ((row + 1) << 55) - 1
-        ds.update({lo, hi, (lo + hi) // 2, min(hi + 1, B - 1), max(lo - 1, 1 << 63)})
+        ds.update({lo, hi, (lo + hi) // 2, min(hi + 1, B - 1), max(lo - 1, 1 << 63), hi - 1, hi - (1 << 20), lo + 1})
         if not quick:
             ds.update({lo | ((1 << 24) - 1), lo | ((1 << 40) - 1), (lo + rng.getrandbits(55)), lo | (1 << 24), lo | (1 << 40)})
     for _ in range(50 if quick else 1000):
